@@ -156,11 +156,14 @@ def fragment(
     airdfragments: bool = False,
     raw_nonascii: bool = False,
     resources: dict[str, pathlib.Path] | None = None,
+    resource_rename: dict[str, dict[str, str]] | None = None,
 ) -> Layout:
     """Write a fragmented copy of the model at ``src_aird`` below ``dst``.
 
     cuts: (element id, project-relative fragment file) — nested cuts allowed (any order).
     main_rel: relocate the main semantic file (project-relative), default: keep its name.
+    resource_rename: {library name: {old file: new file}} (library-relative): rename files inside a library
+        resource (e.g. to the very name the project's own semantic file has) and re-point every reference.
     """
     src_aird = pathlib.Path(src_aird)
     src_dir = src_aird.parent
@@ -168,9 +171,14 @@ def fragment(
     pdir = dst / project
     pdir.mkdir(parents=True, exist_ok=True)
     res_out: dict[str, str] = {}
+    ext_map: dict[str, str] = {}  # project-relative path of a renamed library file -> its new path
     for name, d in (resources or {}).items():
         shutil.copytree(d, dst / name, dirs_exist_ok=True)
         res_out[name] = str(dst / name)
+        for old, new in (resource_rename or {}).get(name, {}).items():
+            (dst / name / new).parent.mkdir(parents=True, exist_ok=True)
+            (dst / name / old).rename(dst / name / new)
+            ext_map[posixpath.normpath(f"../{name}/{old}")] = posixpath.normpath(f"../{name}/{new}")
 
     old_main, sem_res = find_main(src_aird)
     new_main = main_rel or old_main
@@ -266,7 +274,8 @@ def fragment(
                         tgt_new = owner[ident]
                         typ = _type_of(byid[ident])
                     else:
-                        tgt_new = tgt_old  # another resource: path stays, relative spelling changes
+                        # another resource: path stays (unless renamed), relative spelling changes
+                        tgt_new = ext_map.get(tgt_old, tgt_old)
                     if tgt_new == fname:
                         new_parts.append(f"#{ident}")
                     else:
@@ -284,13 +293,23 @@ def fragment(
         href = e.get("href")
         if href and "#" in href and not href.startswith("platform:/plugin"):
             path, _, ident = href.partition("#")
-            if path and _resolve(urllib.parse.unquote(path), aird_name) == old_main and ident in owner:
+            tgt = _resolve(urllib.parse.unquote(path), aird_name) if path else None
+            if path and tgt == old_main and ident in owner:
                 e.set("href", f"{_quote(_rel(owner[ident], aird_name), raw_nonascii)}#{ident}")
+            elif tgt in ext_map:
+                e.set("href", f"{_quote(_rel(ext_map[tgt], aird_name), raw_nonascii)}#{ident}")
     sem_elems = list(aird_root.iter("semanticResources"))
     last = sem_elems[-1]
     for se in sem_elems:
-        if urllib.parse.unquote(se.text or "") == old_main:
+        text = urllib.parse.unquote(se.text or "")
+        if text == old_main:
             se.text = _quote(_rel(new_main, aird_name), raw_nonascii)
+        elif text and _resolve(text, aird_name) in ext_map:
+            new = ext_map[_resolve(text, aird_name)]
+            if text.startswith("platform:/resource/"):
+                se.text = "platform:/resource/" + _quote(new[len("../"):], raw_nonascii)
+            else:
+                se.text = _quote(_rel(new, aird_name), raw_nonascii)
     n = 0
     for frag_file in fragments:
         n += 1
